@@ -21,7 +21,12 @@ impl World {
     pub fn new() -> World {
         let specs = crate::spec::all_specs();
         let variants = crate::spec::all_variants(&specs);
-        World { specs, variants, suts: crate::corpus::registry() }
+        let suts = crate::corpus::registry();
+        if suts.len() < 20 {
+            // the working tree's generator rejected (almost) the whole corpus: nothing can be decided here
+            simcore::harness_error(&format!("only {} corpus parsers were generated (rejected variants: {:?})", suts.len(), crate::corpus::REJECTED));
+        }
+        World { specs, variants, suts }
     }
     pub fn variant(&self, s: &dyn Sut) -> &Variant {
         &self.variants[s.info().variant]
